@@ -1,19 +1,22 @@
 """C13 - parallel primitives and lock-free containers equal their sequential spec."""
 import os, time
 from vlib import core, cases
+from checks import c13_containers
 
 LEVEL = "proof"
-PROPS = ["MV/Props/C13a.lean", "MV/Props/C13b.lean"]
+PROPS = ["MV/Props/C13a.lean", "MV/Props/C13b.lean", "MV/Props/C13c.lean"]
 ASSUMPTIONS = [
     "theorems are about MV/Model/Par.lean; the model is tied to src/parallel.h by running the real templates (MANIFOLD_PAR=1) "
     "under virtual TBB on seeded (input, schedule) pairs and the model on the SAME schedule term, outputs compared exactly",
     "virtual TBB stays inside oneTBB's documented contract (harness/vtbb/CONTRACT.md); real hardware interleavings are only sampled (thorough tier, real TBB)",
     "std::reduce/std::merge/std::stable_sort of libstdc++ 12 are taken as the sequential specification",
+    "containers: theorems about the small-step models MV/Model/Dsu.lean and HashT.lean hold for every interleaving under sequentially consistent atomics (weak memory not modelled); "
+    "tied to disjoint_sets.h / hashtable.h by re-compiling them with every atomic access routed through a scheduler-controlled shim and comparing the per-step log with the model on the same schedule; liveness (hash probing on a full table) is not claimed",
 ]
 
 
 def run(ctx):
-    cov = core.proof_gate(ctx.pid, PROPS, ["MV.Props.C13a", "MV.Props.C13b"] if ctx.tier == "thorough" else None)
+    cov = core.proof_gate(ctx.pid, PROPS, ["MV.Props.C13a", "MV.Props.C13b", "MV.Props.C13c"] if ctx.tier == "thorough" else None)
     cov["checker_cmd"] = "cd lean && lake build MV mvdriver && lake env lean <#print axioms for every theorem of %s>" % ",".join(PROPS)
     cov["trusted_base"] = core.TRUSTED_BASE + ["virtual TBB shim (harness/vtbb)"]
     exe = core.compile_harness("c13_par", [os.path.join(core.ROOT, "harness", "c13_par.cpp")],
@@ -26,6 +29,7 @@ def run(ctx):
     cov["rule"] = ("cases drawn from VERIF_SEED: primitive x length class (0,1,small,kSeqThreshold+-,2e4-3.5e4,65530-65541,131071-131073,2e5) x content class "
                    "(few distinct, sorted, reverse, constant, random) x schedule (random legal split tree, mode 'max split' every 7th); distinct = distinct request lines")
     cov["samples"] = [{"case": c["tag"], "request": core.clip(c["req"], 200), "answer": core.clip(c["exp"], 120)} for c in cs[:4]]
+    cov.update(c13_containers.run(ctx))
     if ctx.tier == "thorough":
         # real TBB, real threads: only the property oracle (std:: equality) is meaningful
         exe2 = core.compile_harness("c13_par_tbb", [os.path.join(core.ROOT, "harness", "c13_par.cpp")],
